@@ -1,5 +1,5 @@
 """C01 -- symmetric / Hermitian solvers return only genuine, orthonormal eigenpairs (structural clauses)."""
-from . import eigsbase
+from . import eigsbase, shiftsolvers
 
 EXPLANATION = (
     'Static analysis of the instantiated HermEigsBase family (clang AST + CFG, all paths, all analysed instantiations). '
@@ -19,5 +19,8 @@ def run(ctx):
     eigsbase.coherent_permutation(ctx, BASE)
     eigsbase.coherent_retrieve(ctx, BASE)
     eigsbase.convergence_test_shape(ctx, BASE)
+    eigsbase.accessor_agreement(ctx, BASE)
+    shiftsolvers.backtransform_before_sort(ctx, BASE, 4)
+    shiftsolvers.shifted_classes_override(ctx, BASE)
     ctx.require('flags-fresh-at-use', 5)
     ctx.require('coherent-permutation', 5)
